@@ -61,7 +61,7 @@ CLAIMED = {
     note='Trusted: Coq kernel, vm_compute, harness (function interpreter, canonical form), jaxcompat, JAX tracing / lax control flow / jit cache. NOT proved: that the protocol run completes '
          'whenever the eager run does (fuel sufficiency of the model\'s flatten) and that JAX evaluates the traced function like Python; decided per run. Loops are modelled as one protocol run '
          'around the k-fold body. cached_partial: value updates, and exactly-one-structural-edit cases that must raise; graphs without array attributes (known findings F16 stale clone, F20 '
-         'array attributes); F21 (aliased cached arguments, KeyError) and F35 (nnx.jit dropped edits of Variable metadata) found by this check and fixed. Edits of Variable metadata, long lists / digit-keyed dicts and loop bodies that change which object an attribute holds are oracle families (lifted vs eager on the real code), not in the model's function language. pmap / shard_map / custom_vjp / eval_shape not run. No axioms.',
+         'array attributes); F21 (aliased cached arguments, KeyError) and F35 (nnx.jit dropped edits of Variable metadata) found by this check and fixed. Edits of Variable metadata, long lists / digit-keyed dicts and loop bodies that change which object an attribute holds are oracle families (lifted vs eager on the real code), not in the function language of the model. pmap / shard_map / custom_vjp / eval_shape not run. No axioms.',
     technique='Coq proof (simulation between the caller\'s heap and the inner copy by induction over the function body; joint invariant of flatten and placed unflatten by fuel induction; '
               'invariance of flatten under heap isomorphism) + per-run model-vs-implementation correspondence by vm_compute',
     ref='DESIGN.md section 5, C04'),
